@@ -325,6 +325,22 @@ def overriding_measure_family():
     return out
 
 
+def bit_swap_after_postselection_family():
+    """two measured bits exchanged while tket bit 0 is post-selected (the exporter swaps tket bits through a temporary
+    unit tmp[0]: the post-selection must stay on its own bit)"""
+    out = []
+    for bras in ([0], [1]):
+        for pos in (0, 2):
+            layers = [{"g": _mg("Ket", bits=[0, 0, 0]), "off": 0}, {"g": _mg("H"), "off": 1 if pos == 0 else 0},
+                      {"g": _mg("X"), "off": 2 if pos == 0 else 1}]
+            if bras == [1]:
+                layers.append({"g": _mg("X"), "off": pos})
+            layers += [{"g": _mg("Bra", bits=bras), "off": pos}, {"g": _mg("Measure", n=1, f1=1, f2=0), "off": 0},
+                       {"g": _mg("Measure", n=1, f1=1, f2=0), "off": 1}, {"g": _mg("MSwap", tl=["b"], tr=["b"]), "off": 0}]
+            out.append({"ty": [], "layers": layers})
+    return out
+
+
 def work_one(mc):
     rec, t = observe_to(mc)
     out = [rec]
@@ -466,7 +482,7 @@ def run(tier, seed, t0):
         os.remove(model["dump"])
         n_all = len(circuits)
         sample = circuits if len(circuits) <= c["replay"] else rnd.sample(circuits, c["replay"])
-        sample = sample + dead_wire_family() + postselection_chain_family() + bit_after_copy_family() + overriding_measure_family()
+        sample = sample + dead_wire_family() + postselection_chain_family() + bit_after_copy_family() + overriding_measure_family() + bit_swap_after_postselection_family()
         with mp.get_context("fork").Pool(16) as pool:
             nested = pool.map(work_one, sample, chunksize=4)
         recs = [r for group in nested for r in group]
